@@ -392,7 +392,15 @@ func (s *StateDB) StorageTrie(addr common.Address) (Trie, error) {
 		return nil, nil
 	}
 	cpy := stateObject.deepCopy(s)
-	if _, err := cpy.updateTrie(s.db); err != nil {
+	// The copy flushes its pending slots into its own trie only: detach the
+	// snapshot buffers of this StateDB while it does, otherwise uncommitted
+	// (possibly later reverted) slot values leak into s.snapStorage and from
+	// there into the snapshot layer of the next Commit.
+	snap := s.snap
+	s.snap = nil
+	_, err := cpy.updateTrie(s.db)
+	s.snap = snap
+	if err != nil {
 		return nil, err
 	}
 	return cpy.getTrie(s.db)
